@@ -42,7 +42,7 @@ def describe(f):
 
 
 def run(ctx):
-    n = ctx.pick(400, 6000)
+    n = ctx.pick(300, 6000)
     with concurrent.futures.ThreadPoolExecutor(max_workers=4) as ex:
         futs = []
         if ctx.only is None:
